@@ -167,7 +167,7 @@ def run(task):
         return run_gamma_family(pa, res, *task["gamma_family"])
     if "many" in task:
         p_, n_ = task["many"]
-        wmax = 6 if p_ <= 7 else 2
+        wmax = 6 if p_ <= 7 else (2 if p_ <= 9 else (1 if tier == "quick" else 3))
         specs = [(many_spec(p_, n_), list(range(1, wmax + 1)))]
     elif task.get("known_shapes"):
         specs = [(s, [w, w + 1]) for s, w in KNOWN_SHAPES]
